@@ -485,7 +485,7 @@ func (c *rebComp) Run(h *hlib.History) ([]hlib.Mon, bool) {
 				}
 			}
 			rec := httptest.NewRecorder()
-			rb.ServeHTTP(rec, httptest.NewRequest(http.MethodGet, "http://front.test/", nil))
+			rb.ServeHTTP(rec, hlib.Abandoned(hlib.Vary(httptest.NewRequest(http.MethodGet, "http://front.test/", nil), step), step%5 == 2))
 			o, ws, order := observe(0)
 			h.Obs = append(h.Obs, o)
 			c.checkMembers(hit, step, order, cfgW)
